@@ -518,12 +518,17 @@ pub fn check(case: &Case) -> Outcome {
             }
             let (Some(f), Some(r)) = (&st.formula, rect) else { continue };
             let content = um.get_cell_content(DATA, r.0, r.1).unwrap_or_default();
+            // once the probe formula has left the top-left cell of the range (it was cut away on
+            // its own) it stays out of the comparison: a formula with the same id that shows up
+            // there later is a *copy* (translated by the paste), not the probe
             let Some(probe_text) = content.strip_prefix('=') else {
                 o = o.label("formula-probe-not-at-anchor");
+                probe_dead[j] = true;
                 continue;
             };
             if !probe_text.contains(&spec.id.to_string()) {
                 o = o.label("formula-probe-not-at-anchor");
+                probe_dead[j] = true;
                 continue;
             }
             let f_text = f.strip_prefix('=').unwrap_or(f);
